@@ -30,6 +30,7 @@ def run(chk):
     r7(chk, prog, m)
     r8(chk, prog, m, "C12.R8")
     r9(chk, prog, m)
+    r10_null_target(chk, prog, m)
     chk.undecided_clauses += [
         "agreement with an RFC 6901 evaluator on generated trees and pointers (needs execution)",
         "json_pointer_getf/setf formatting (vasprintf on data)",
@@ -937,3 +938,79 @@ def r9(chk, prog, m):
         else:
             chk.proven(rid, f.name, sig, f.entry.term.locstr(), "refused without a lookup on 3 malformed pointers")
     chk.floor(rid, n, 3, "public entry points taking a pointer string")
+
+
+# ---------------------------------------------------------------------------
+# R10 a member that holds JSON null is found by every lookup entry
+class _NullTargetPE(_EntryPE):
+    """like _EntryPE, but the member lookup is answered: the key "a" is present in the root object and holds JSON null"""
+
+    def call_model(self, state, frame, i, args):
+        nm = i.callee
+        if nm in ("json_object_object_get_ex", "lh_table_lookup_ex") and len(args) >= 3:
+            key = self._cstr(state, args[1]) if args[1][0] == "ptr" else None
+            self.lookups.append((nm, key))
+            if key == b"a":
+                if args[2][0] == "ptr":
+                    self.store(state, args[2], pe.C(0))
+                return pe.C(1)
+            if args[2][0] == "ptr":
+                self.store(state, args[2], pe.C(0))
+            return pe.C(0)
+        if nm == "json_object_object_get":
+            return pe.C(0)
+        return super().call_model(state, frame, i, args)
+
+
+def r10_null_target(chk, prog, m):
+    from ..cfg import CallGraph
+    rid = "C12.R10"
+    chk.rule(rid, "a member that is present and holds JSON null is a valid target of every lookup entry: each public function of the "
+                  "module that resolves a pointer for reading, evaluated on \"/a\" with the root's member a present and null, reports "
+                  "success (the printf variant is given the string as the result of its vasprintf)")
+    cg = CallGraph(prog)
+    n = 0
+    for f in [g for g in m.functions.values() if not g.is_decl and not g.internal]:
+        ptypes = [t for t, _ in f.params]
+        if "i8*" not in ptypes:
+            continue
+        # reading entries: no value to store (exactly one node parameter) and somewhere to put the result
+        if not ptypes or ptypes[0] != "%struct.json_object*" or ptypes.count("%struct.json_object*") != 1 or \
+                not any(t in ("%struct.json_object**", "%struct.json_pointer_get_result*") for t in ptypes):
+            continue
+        reach = cg.reachable([f])
+        if not any((isinstance(g, str) and g[4:] in NAME_APIS) or (not isinstance(g, str) and g.name in NAME_APIS) for r_ in reach for g in cg.callees[r_]):
+            continue
+        chk.touched(f)
+        n += 1
+        args = []
+        used = False
+        for t, nm in f.params:
+            if t == "i8*" and not used:
+                args.append(("ptr", "text", ()))
+                used = True
+            elif t == "%struct.json_object*":
+                args.append(("ptr", "root", ()))
+            elif t.endswith("*"):
+                args.append(("ptr", "out_" + (nm or "x"), ()))
+            else:
+                args.append(pe.TOP)
+        h = _NullTargetPE(prog, f, b"/a")
+        sig = "null member through " + f.name
+        try:
+            leaves = h.run(f, args, pe.State())
+        except Exception as e:
+            chk.undecided(rid, f.name, sig, f.entry.term.locstr(), str(e))
+            continue
+        rets = [lf for lf in leaves if lf.kind == "ret"]
+        if not rets or len(rets) != len(leaves) or any(lf.value is None or not pe.is_const(lf.value) for lf in rets) or \
+                not any(k == b"a" for _, k in h.lookups):
+            chk.undecided(rid, f.name, sig, f.entry.term.locstr(), "the evaluation does not end in concrete returns after looking up \"a\"%s"
+                          % ((" (calls outside the model: %s)" % ", ".join(sorted(set(h.opaque)))) if h.opaque else ""))
+        elif any(lf.value[1] != 0 for lf in rets):
+            chk.refuted(rid, f.name, sig, f.entry.term.locstr(),
+                        "%s(\"/a\") fails (returns %d) although the member a exists and holds JSON null: null is a value, not an "
+                        "absent member" % (f.name, [lf.value[1] for lf in rets if lf.value[1] != 0][0]))
+        else:
+            chk.proven(rid, f.name, sig, f.entry.term.locstr(), "success with the null value")
+    chk.floor(rid, n, 2, "lookup entry points")
